@@ -3,6 +3,7 @@
 -/
 import PygModel.Ops
 import PygProofs.Lemmas.OpsFoldLemmas
+import PygModel.OpsF
 
 namespace Pyg.Ops
 open Pyg Pyg.Align
@@ -119,5 +120,22 @@ theorem joinO_all (how : How) (xs : List Operand) :
   cases h : indexesOf xs with
   | nil => rfl
   | cons i L => rw [joinIndex_fold, List.foldl_cons]; exact foldl_joinO_some how i L
+
+theorem rat_add_right_comm (v a b : Rat) : v + a + b = v + b + a := by
+  rw [Rat.add_assoc, Rat.add_comm a b, ← Rat.add_assoc]
+theorem rat_mul_right_comm (v a b : Rat) : v * a * b = v * b * a := by
+  rw [Rat.mul_assoc, Rat.mul_comm a b, ← Rat.mul_assoc]
+
+theorem appO_right_comm (op : Op) (hop : op = .add ∨ op = .mul) (v a b : Option Rat) :
+    op.appO (op.appO v a) b = op.appO (op.appO v b) a := by
+  rcases hop with rfl | rfl <;> cases v <;> cases a <;> cases b <;>
+    simp [Op.appO, Op.app, rat_add_right_comm, rat_mul_right_comm]
+
+/-- the left fold from the first operand is the fold of ALL operands from the neutral element -/
+theorem fold_from_neutral (op : Op) (hop : op = .add ∨ op = .mul) (x : Option Rat) (xs : List (Option Rat)) :
+    xs.foldl op.appO x = (x :: xs).foldl op.appO (some op.neutral) := by
+  have : op.appO (some op.neutral) x = x := by
+    rcases hop with rfl | rfl <;> cases x <;> simp [Op.appO, Op.app, Op.neutral, Rat.zero_add, Rat.one_mul]
+  rw [List.foldl_cons, this]
 
 end Pyg.Ops
